@@ -24,10 +24,17 @@ T = {"double": 1e-13, "single": 2e-6}
 def cases(tier, seed):
     n = 240 if tier == "quick" else 3600
     kinds = ["scalar", "single", "ascending", "descending", "shuffled", "with_top_first", "full", "full_reversed"]
-    return [{"seed": seed, "idx": i, "sel": kinds[i % len(kinds)]} for i in range(n)]
+    out_ = [{"seed": seed, "idx": i, "sel": kinds[i % len(kinds)]} for i in range(n)]
+    if tier == "thorough":
+        out_.append({"seed": seed, "kind": "repo_tests", "_cost": 40})
+    return out_
 
 
 def run_case(case):
+    if case.get("kind") == "repo_tests":
+        from vlib import hooks
+
+        return hooks.run_repo_tests(ID, ['test_integration.py', 'test_interface.py', 'test_io.py'])
     import numpy as np
     from vlib import gen, solve
 
